@@ -155,6 +155,19 @@ theorem selection_spec (pfx key env ds : Str) :
 theorem env_of_classic (key env : Str) (h : Classic key) : envName key env = [] := by
   simp [envName, (legacy_key_spec key).mpr h]
 
+/-- **environment_is_auth_name** — a request with an environment-scoped key is processed with the
+environment NAME the auth lookup returns for the key (nothing else in the response, e.g. the slug,
+enters the selection); classic and absent keys get no environment. -/
+theorem environment_is_auth_name (path : Path) (key name : Str) (hk : key ≠ []) (hc : ¬ Classic key) (pfx ds : Str) :
+    resolveEnv path key (some name) = some name ∧ samplerKey pfx key name ds = name := by
+  have hl : isLegacyKey key = false := by
+    cases h : isLegacyKey key
+    · rfl
+    · exact absurd ((legacy_key_spec key).mp h) hc
+  constructor
+  · simp [resolveEnv, hk, hl]
+  · exact (selection_spec pfx key name ds).1 hc
+
 /-! ## Lookup with `__default__` -/
 
 /-- **default_fallback** — the sampler for a destination name is the one configured under that name;
